@@ -302,7 +302,9 @@ impl From<TypeNodeId> for StateType {
             ),
             Type::Tuple(elems) => StateType(elems.iter().map(|ty| ty.word_size() as u64).sum()),
             Type::Array(_elem_ty) => StateType(1),
-            _ => todo!(),
+            // every other type (sum types, strings, boxed values, unresolved variables):
+            // the cell is as wide as the value GetState / SetState move
+            _ => StateType(t.word_size() as u64),
         }
     }
 }
